@@ -363,6 +363,33 @@ class C16(Prop):
                                 'axial_positions': zs}
             if tables:
                 spec['setup']['AssemblyTables'] = tables
+        # hot-spot requests: another consumer of the finished model that
+        # reads request dictionaries living inside the parsed input
+        gh = S('hotspot')
+        if rng.chance(gh, 0.35):
+            for t in spec['types']:
+                if t.get('lowfi') or not rng.chance(gh, 0.7):
+                    continue
+                hs = {'hs_cool': {
+                    'temperature': 'coolant',
+                    'subfactors': rng.choice(gh, ['fftf_clad_mw',
+                                                  'crbr_fuel_clad_mw']),
+                    'input_sigma': int(gh.integers(2, 4)),
+                    'output_sigma': int(gh.integers(1, 3))}}
+                if t.get('pinmodel') and rng.chance(gh, 0.6):
+                    hs['hs_clad'] = {
+                        'temperature': 'clad_mw',
+                        'subfactors': rng.choice(gh, ['fftf_clad_mw',
+                                                      'crbr_fuel_clad_mw',
+                                                      'crbr_blanket_clad_mw']),
+                        'input_sigma': 3, 'output_sigma': 2}
+                if t.get('pinmodel') and rng.chance(gh, 0.4):
+                    hs['hs_fuel'] = {
+                        'temperature': 'fuel_cl',
+                        'subfactors': rng.choice(gh, ['fftf_fuel_cl',
+                                                      'ebrii_markv_fuel_cl']),
+                        'input_sigma': 3, 'output_sigma': 2}
+                t['hotspot'] = hs
         ntp = len(spec['power'])
         ops = []
         for _ in range(int(g.integers(3, 7))):
